@@ -30,3 +30,62 @@ func VerifH_C05_GlobalLocal() {
 	}
 	rt.Cover(rt.And(n == 3, si == 1), "middle-segment")
 }
+
+// verifSizedSeg is an in-memory stub segment with a symbolic Size().
+type verifSizedSeg struct {
+	verifSeg
+	size int
+}
+
+func (s *verifSizedSeg) Size() int { return s.size }
+
+// VerifH_C05_FlushSet: how persistSnapshotMaybeMerge groups the in-memory segments of a snapshot into
+// batches for the in-memory merge workers (the prefix of the function up to the call of
+// mergeAndPersistInMemorySegments, taken mechanically from the current source): whatever the sizes
+// and the worker options, the batches partition the unpersisted segments in order, and every batch
+// keeps, position by position, each segment together with its own deleted bitmap and its own
+// snapshot - a batch that merges a segment with another segment's deletions would resurrect or lose
+// documents.
+func VerifH_C05_FlushSet() {
+	n := rt.Choice("nsegs", rt.Param("max_segs", 4)) + 1
+	s := verifNewScorch()
+	snap := &IndexSnapshot{parent: s, refs: 1, internal: map[string][]byte{}}
+	var unp []*SegmentSnapshot
+	for i := 0; i < n; i++ {
+		ss := &SegmentSnapshot{id: uint64(i + 1), stats: newFieldStats(), cachedDocs: &cachedDocs{cache: nil}, cachedMeta: newCachedMeta()}
+		if rt.Choice("persisted", 2) == 1 {
+			ss.segment = &verifPSeg{verifSeg{n: 1, idOf: []byte{'a'}, refs: 1, path: "/idx/x.zap"}}
+		} else {
+			sz := rt.Int("size")
+			rt.Assume(rt.And(sz >= 0, sz <= 1000))
+			ss.segment = &verifSizedSeg{verifSeg{n: 2, idOf: []byte{'a', 'b'}, refs: 1}, sz}
+			unp = append(unp, ss)
+		}
+		if rt.Choice("has_deleted", 2) == 1 {
+			ss.deleted = rt.BitmapFromBits(1)
+		}
+		snap.segment = append(snap.segment, ss)
+	}
+	po := &persisterOptions{NumPersisterWorkers: rt.Choice("workers", 3) + 1, MaxSizeInMemoryMergePerWorker: rt.Int("max_size")}
+	rt.Assume(rt.And(po.MaxSizeInMemoryMergePerWorker >= 0, po.MaxSizeInMemoryMergePerWorker <= 2000))
+	fs := s.verifFlushSet(snap, po)
+	if len(unp) < DefaultMinSegmentsForInMemoryMerge {
+		rt.Assert(len(fs) == 0, "nothing to flush below the minimum number of in-memory segments")
+		return
+	}
+	k := 0
+	for _, f := range fs {
+		rt.Assert(len(f.sbsBatch) >= 1, "no empty batch")
+		rt.Assert(rt.And(len(f.sbsBatch) == len(f.sbsBatchDrops), len(f.sbsBatch) == len(f.sbsBatchSnapshots)), "the three lists of a batch have the same length")
+		for j := range f.sbsBatch {
+			if k < len(unp) && j < len(f.sbsBatchDrops) && j < len(f.sbsBatchSnapshots) {
+				rt.Assert(f.sbsBatchSnapshots[j] == unp[k], "batches hold the in-memory segments in snapshot order, each once")
+				rt.Assert(f.sbsBatch[j] == unp[k].segment, "a batch entry's segment is its snapshot's segment")
+				rt.Assert(f.sbsBatchDrops[j] == unp[k].deleted, "a batch entry's deletions are its own segment's deletions")
+			}
+			k++
+		}
+	}
+	rt.Assert(k == len(unp), "every in-memory segment is in exactly one batch")
+	rt.Cover(len(fs) >= 2, "two-batches")
+}
